@@ -751,6 +751,27 @@ def check_seeding(run):
                                 f"initial value {q[name].value}, expected "
                                 f"{want}", payload={"kind": "rerun"},
                                 theorem="C18_ancillary_seeding")
+            # the model's documented defaults are not touched by guesses
+            # or by a caller editing what it was handed, and a NaN ancillary
+            # leaves the documented default (not an earlier curve's seed)
+            doc = m.get_parameter_defaults()
+            now = md.get_parameter_defaults()
+            now_vals = {k: (now[k].value, now[k].vary) for k in now}
+            now["E"].set(value=99.0, vary=False)
+            again = md.get_parameter_defaults()
+            bad = [k for k in doc
+                   if now_vals.get(k) != (doc[k].value, doc[k].vary)
+                   or (again[k].value, again[k].vary)
+                   != (doc[k].value, doc[k].vary)]
+            bad += [f"{k} (NaN ancillary)" for k in ("E", "R")
+                    if math.isnan(anc[k]) and p[k].value != doc[k].value]
+            if bad:
+                run.failing(SITE_A, f"seed:defaults:{anc}",
+                            f"after guessing with ancillaries {anc} the "
+                            f"registered model's defaults / NaN-seeded values "
+                            f"differ from the documented ones for {bad}",
+                            payload={"kind": "rerun"},
+                            theorem="C18_ancillary_seeding")
             if "other" in p or set(p) != set(p0):
                 run.failing(SITE_A, f"seed:created:{anc}",
                             "seeding created a parameter",
